@@ -48,6 +48,45 @@ pub fn expect_validate_ok(family: &Family, aops: &[AOp], k: KSet, ix: usize, cur
     }
 }
 
+/// When validate_op rightly reports a gap, the payload must name it: the actor whose updates would be skipped
+/// and the range of its missing counters (List, Orswot, Map, VClock), or a child that is really missing
+/// (MerkleReg). Returns a description of what is wrong with the payload, if anything.
+pub fn check_gap_payload(family: &Family, aops: &[AOp], k: KSet, ix: usize, v: &Verdict) -> Option<String> {
+    let info = match v {
+        Verdict::Err { info, .. } => info,
+        _ => return None,
+    };
+    let o = &aops[ix];
+    match family {
+        Family::Dotted(_) | Family::VClock | Family::List => {
+            let n = o.dot?;
+            let have = clk_get(&model::clock_of(aops, k), o.author);
+            let want = format!("actor: {}, counter_range: {}..{}", o.author, have + 1, n);
+            if info.contains("DotRange") && !info.contains(&want) {
+                return Some(format!("the reported gap is {} but the missing updates are {}", info, want));
+            }
+            None
+        }
+        Family::Merkle => {
+            if let (Some(Obs::Merkle { notes, .. }), AInfo::Merkle { children, .. }) = (model::expect(family, aops, k, UNIV), &o.info) {
+                let dag = &notes[0];
+                let missing: Vec<&String> = children.iter().filter(|c| !dag.contains(&format!("\"{}\": (", c))).collect();
+                // the payload prints the hash as a byte array; compare through the first 8 bytes rendered as hex
+                let reported: Option<String> = info.find('[').and_then(|i| info[i + 1..].find(']').map(|j| info[i + 1..i + 1 + j].to_string())).map(|body| {
+                    body.split(',').take(8).filter_map(|x| x.trim().parse::<u8>().ok()).map(|b| format!("{:02x}", b)).collect::<String>()
+                });
+                if let Some(r) = reported {
+                    if !missing.iter().any(|m| **m == r) {
+                        return Some(format!("MissingChild names {} which is not one of the missing children {:?}", r, missing));
+                    }
+                }
+            }
+            None
+        }
+        _ => None,
+    }
+}
+
 pub fn check_validate_merge_correct<S: Sut>(w: &World<S>, a: &S, b: &S, what: &str) -> Result<(), Failure> {
     for (x, y, dir) in [(a, b, "a.validate_merge(b)"), (b, a, "b.validate_merge(a)")] {
         match guard(|| x.validate_merge(y)) {
@@ -302,6 +341,13 @@ pub fn run_probe<S: Sut>(w: &mut World<S>, p: &Probe) -> Res {
             w.stats.probe_cases += 1;
             let v = guard(|| st.validate_op(&op));
             let exp = expect_validate_ok(&w.family, &w.aops, k, ix, w.nodes[*node].last_obs.as_ref());
+            if let (Ok(vv), Some(false)) = (&v, exp) {
+                if w.cfg.on("validate.payload") {
+                    if let Some(why) = check_gap_payload(&w.family, &w.aops, k, ix, vv) {
+                        return fail(w.step, "validate.payload", format!("node {} K={:x}: validate_op({}): {}", node, k, S::op_dbg(&op), why));
+                    }
+                }
+            }
             match (v, exp) {
                 (Ok(Verdict::Ok), Some(true)) | (Ok(Verdict::Err { .. }), Some(false)) | (Ok(_), None) => Ok(true),
                 (Ok(v), Some(e)) => {
